@@ -14,6 +14,7 @@ Sources of nondeterminism are the iterations over hash-ordered containers inside
      trace asserts that the native run indeed visits in that fixed order.
 """
 import collections
+import re
 import hashlib
 import json
 import multiprocessing as mp
@@ -142,7 +143,7 @@ def _compile_one(job):
             out = {"status": "ok", "sha": hashlib.sha256(pkg.to_bytes()).hexdigest()}
         except GuppyError as e:
             try:
-                out = {"status": "rejected", "text": runner.render_error(e)}
+                out = {"status": "rejected", "text": re.sub(r"<verif:[^>]*>", "<src>", runner.render_error(e))}
             except Exception as e2:  # noqa: BLE001
                 out = {"status": "render-crash", "text": repr(e2)}
         except Exception as e:  # noqa: BLE001
@@ -164,7 +165,7 @@ def fork_map(jobs, procs=12):
 
 
 CHILD = r"""
-import sys, json, hashlib, os
+import sys, json, hashlib, os, re
 sys.path[:0] = [%(h)r, %(h)r + "/compat"]
 noise = int(sys.argv[1])
 junk = [bytearray(37) for _ in range(noise)]
@@ -181,7 +182,7 @@ for name, src in progs:
             pkg = getattr(mod, "f").compile_function()
             out[name] = ["ok", hashlib.sha256(pkg.to_bytes()).hexdigest()]
         except GuppyError as e:
-            out[name] = ["rejected", runner.render_error(e)]
+            out[name] = ["rejected", re.sub(r"<verif:[^>]*>", "<src>", runner.render_error(e))]
         except Exception as e:
             out[name] = ["crash", type(e).__name__ + ": " + str(e)[:200]]
     except Exception as e:
